@@ -65,6 +65,8 @@ def xml_bytes(obj) -> bytes:
 
 def gen_objects(seed, n, tier, falsy_bias=0.35, stress=True):
     out = []
+    zoo, zstats = _make(seed, -1, 3, falsy_bias, stress)
+    out.append((-1, zoo, zstats))          # the deterministic zoo of leaf values (py/vf/gen.py): on every run
     for i in range(n):
         obj, stats = _make(seed, i, 3 if tier == "quick" else 4, falsy_bias, stress)
         out.append((i, obj, stats))
@@ -74,6 +76,8 @@ def gen_objects(seed, n, tier, falsy_bias=0.35, stress=True):
 def _make(seed, i, depth, falsy_bias, stress=True):
     from vf import gen, meta
     g = gen.Gen(random.Random(f"C04obj:{seed}:{i}"), max_depth=depth, falsy_bias=falsy_bias, stress=stress)
+    if i == -1:
+        return g.zoo_submodel(), g.stats
     kind = i % 5
     if kind == 0:
         obj = g.submodel()
